@@ -97,12 +97,16 @@ CLAIMED = {
         "6 (C02)",
     ),
     "C07": (
-        "Coq model of the send FSM on a mini event loop + step lemmas (deadline armed at the call, the deadline wakes the caller, a wake-up always answers) + trace-equality correspondence with the real PortProtocol on a virtual-time loop + schedule oracle",
-        "4 theorems in coq/props/C07.v about coq/model/M_Qos.v (ProtocolContext.set_state/_send_cmd/_check_buffer_for_cmd/send_cmd, the "
+        "Coq model of the send FSM on a mini event loop + invariant by induction over arbitrary runs (a caller is only ever handed its own command's echo or reply, while no internal assertion trips) + step lemmas (deadline armed at the call, the deadline wakes the caller, a wake-up always answers) + trace-equality correspondence with the real PortProtocol on a virtual-time loop + schedule oracle",
+        "7 theorems in coq/props/C07.v about coq/model/M_Qos.v (ProtocolContext.set_state/_send_cmd/_check_buffer_for_cmd/send_cmd, the "
         "expiry task, the writer task, every 'Coding error' assert as an explicit Crash, on a loop model with _run_once batching and "
         "tie policies): every call is answered at once or arms a wake-up at now + min(timeout, 20 s) [the cap re-read from the source]; "
-        "the wake-up of a waiting/timed-out caller always produces an answer. PARTIAL: 'the packet belongs to the command' is decided "
-        "by the oracle on the implementation, not yet by a theorem. Tie: ~100 (thorough 400+) generated schedules + 14 singled-out ones "
+        "the wake-up of a waiting/timed-out caller always produces an answer; C07_result_belongs: in EVERY run (any events, tie policy, transport "
+        "plan, number of steps) whose trace shows no tripped assertion (none reached the loop, none was handed to a caller -- those runs are C09's "
+        "finding), every packet handed to a caller has the header of ITS frame (echo) or the header ITS frame asks for (reply): invariant 'the frame "
+        "being matched is the frame of the command whose future will be resolved, the kept echo is that frame's' through every callback, plus "
+        "monotonicity of the trace on every path incl. crashes; non-vacuity witness. PARTIAL: after a tripped assertion ownership is only "
+        "checked by the oracle; 'within the deadline' is per-step (armed / wakes / answers), not a run-level liveness theorem. Tie: ~100 (thorough 400+) generated schedules + 14 singled-out ones "
         "run on the real PortProtocol and on the model; traces (write times, answers with outcome class and packet, loop exceptions, "
         "final state, queue) must be EQUAL. Oracle: one answer per call, answered by the deadline, result is own echo/reply, error class "
         "inside the ProtocolError family.",
